@@ -451,6 +451,7 @@ impl Engine {
     }
 
     pub fn exec(&mut self, act: Act, extras: &mut dyn Extras) {
+        sim_core::heartbeat();
         match act {
             Act::Poll(t) => {
                 with(|w| w.hash_step(1, t));
